@@ -140,6 +140,9 @@ class DLISFile:
         Note: Storage Unit Label should be added to the file separately before adding other records.
         """
 
+        if not self.logical_files:
+            raise RuntimeError("No logical file defined; nothing can be written")
+
         for idx_lf, f in enumerate(self.logical_files):
             if f.defining_origin is None:
                 raise RuntimeError(
